@@ -288,7 +288,7 @@ static std::string cmd_api(std::map<std::string, std::string>& f)
         DenseVector sq(o.lam.size()), qq(o.lam.size());
         for (IndexType i = 0; i < o.lam.size(); i++)
         {
-            sq(i) = std::sqrt(o.lam(i));
+            sq(i) = std::sqrt(std::max<ScalarType>(o.lam(i), 0.0)); // what the methods multiply by (F-SQRT-NEG)
             qq(i) = std::sqrt(std::sqrt(o.lam(i)));
         }
         s += " B=" + show_mat(o.lhs) + " V=" + show_mat(o.V) + " lam=" + show_vec(o.lam) + " s=" + show_vec(sq) +
